@@ -355,6 +355,25 @@ def handle (line : String) : String :=
           items.length ≥ 2 && !(items.any (fun e => (e.splitOn "|").head? == some (bhex mimeTextPlain)))
         if isBin c1 && !isBin c2 then "SPEC C17:binary-identification-lost-at-larger-limit" else "OK"
       | _ => "SPEC C01:no-result(" ++ goRes ++ ")"
+    | ["tar", kind, lim, hx] =>
+      match unhex hx, parseNat lim with
+      | some raw, some l =>
+        match goRes.splitOn " " with
+        | chain :: tv :: earlier :: flags =>
+          let h := header raw l
+          let m := if Cust.tar h then "T" else "F"
+          let d := if m == tv then "" else s!"DIFF det:Tar model={m}"
+          let isTar := (chain.splitOn ",").any (fun e => (e.splitOn "|").head? == some "6170706c69636174696f6e2f782d746172")
+          let s1 := if kind == "ok" && earlier == "n" && h.length ≥ 512 && !isTar &&
+                      !containsSub (h.take 100) Cust.gpkgMarker then "SPEC C18:conforming-archive-not-tar" else ""
+          let s2 := if kind == "bad" && isTar then "SPEC C18:corrupted-header-still-tar" else ""
+          let s3 := if isTar && tv != "T" then "SPEC C18:tar-reported-without-tar-verdict" else ""
+          let s4 := if flags.contains "REPEAT-DIFFERS" then "SPEC C18:repeated-detection-differs ; SPEC C04:repeated-detection-differs" else ""
+          let s5 := if flags.contains "MODIFIED" then "SPEC C04:input-buffer-modified" else ""
+          let all := [d, s1, s2, s3, s4, s5].filter (· != "")
+          if all.isEmpty then "OK" else String.intercalate " ; " all
+        | _ => "SPEC C01:no-result(" ++ goRes ++ ")"
+      | _, _ => "BAD args"
     | ["treeeq"] =>
       let m := String.intercalate " " (dumpTree Gen.builtin)
       if m == goRes then "OK" else s!"DIFF tree model={m}"
